@@ -32,7 +32,7 @@ static char *slurp(const char *path, size_t *len) {
 /* style bits: 1 quoted boundary, 2 upper-case header names, 4 extra part
  * header after Content-Range, 8 no CRLF before the first delimiter,
  * 16 extra part header before Content-Range is omitted (Content-Range first),
- * 32 force multipart even for a single range */
+ * 32 force multipart even for a single range, 64 a 33-40 KB header field in front of Content-Range in every second part */
 static int build_response(const char *rstr, const char *B, size_t Blen, int style, const char *boundary, struct resp *rp) {
     size_t starts[4096], ends[4096];
     int n = 0;
@@ -75,6 +75,16 @@ static int build_response(const char *rstr, const char *B, size_t Blen, int styl
         if(!(style & 16)) {
             k = snprintf(tmp, sizeof(tmp), "%s: application/octet-stream\r\n", (style & 2) ? "CONTENT-TYPE" : "Content-Type");
             APPEND(rp->body, rp->body_len, bcap, tmp, k);
+        }
+        if((style & 64) && (i % 2 == 1 || n == 1)) {
+            /* a very long header field in front of Content-Range (cookies, tracing ids ...): 33-40 KB */
+            size_t padn = 33000 + (size_t)(i % 8) * 1000;
+            char *pad = malloc(padn + 32);
+            size_t o = (size_t)snprintf(pad, 32, "X-Filler: ");
+            memset(pad + o, 'f', padn);
+            memcpy(pad + o + padn, "\r\n", 2);
+            APPEND(rp->body, rp->body_len, bcap, pad, o + padn + 2);
+            free(pad);
         }
         k = snprintf(tmp, sizeof(tmp), "%s: bytes %zu-%zu/%zu\r\n", (style & 2) ? "CONTENT-RANGE" : "Content-Range", starts[i], ends[i], Blen);
         APPEND(rp->body, rp->body_len, bcap, tmp, k);
